@@ -67,6 +67,8 @@ class Solver:
         self.param_mapping = {} if param_mapping is None else param_mapping
         self.monitor_st = {}
         for pin1, pin2 in self.connections.items():
+            if pin1[0] is pin2[0]:
+                raise ValueError("Cannot connect a structure to itself")
             self.connections_list.append(pin1)
             self.connections_list.append(pin2)
             pin1[0].add_conn(pin1[1], *pin2)
@@ -248,6 +250,8 @@ class Solver:
             pin1 = structure1.pin[pin1][1]
         if isinstance(pin2, str):
             pin2 = structure2.pin[pin2][1]
+        if structure1 is structure2:
+            raise ValueError("Cannot connect a structure to itself")
         if (structure1, pin1) in self.connections_list:
             if (structure1, pin1) in self.connections and self.connections[
                 (structure1, pin1)
